@@ -601,6 +601,7 @@ MM = "src/hypergraph/viz/mermaid.py"
 PC = "src/hypergraph/viz/renderer/precompute.py"
 CORE = "src/hypergraph/graph/core.py"
 VARIANTS = [
+    Variant("nested-edges-return-before-recursion", CORE, replace_once("        # Build lookup for this container's children\n        child_lookup = self._build_name_to_id_lookup(G, parent_id)\n", "        if inner.nx_graph.number_of_edges() == 0:\n            return\n\n        # Build lookup for this container's children\n        child_lookup = self._build_name_to_id_lookup(G, parent_id)\n"), {"C20.R4"}),
     Variant("mermaid-source-from-first-value", MM, replace_once("        for value_name in values:\n            actual_source = _resolve_data_source(\n                source,\n                value_name,", "        for value_name in values:\n            actual_source = _resolve_data_source(\n                source,\n                values[0],"), {"C20.R1"}),
     Variant("descendant-by-prefix", "src/hypergraph/viz/_common.py", replace_once("    current = node_id\n    while current is not None:\n        parent = get_parent(current, flat_graph)\n        if parent == ancestor_id:\n            return True\n        current = parent\n    return False", "    return node_id != ancestor_id and node_id.startswith(ancestor_id)"), {"C20.R8"}),
     Variant("twin-descendant-by-separator-prefix", "src/hypergraph/viz/_common.py", replace_once("    current = node_id\n    while current is not None:\n        parent = get_parent(current, flat_graph)\n        if parent == ancestor_id:\n            return True\n        current = parent\n    return False", "    return node_id.startswith(ancestor_id + \"/\")"), set()),
